@@ -307,7 +307,7 @@ class IntroVisitor(ast.NodeVisitor):
         # The list of all the previous interactions.
         # This enforces the concept that the current call depends on previous calls.
         function_inters_sig: Optional[PyHash] = dds_hash_commut(
-            _fis_to_siglist(self.inters)
+            _fis_to_siglist(self.inters) + self._loads_siglist()
         )
         # Check the call for dds calls or sub_calls.
         fi_or_p = InspectFunction.inspect_call(
@@ -334,6 +334,15 @@ class IntroVisitor(ast.NodeVisitor):
         if fi_or_p is not None and isinstance(fi_or_p, str):
             self.load_paths.append(fi_or_p)
         self.generic_visit(node)
+
+    def _loads_siglist(self) -> List[Tuple[HK, PyHash]]:
+        # The paths loaded so far in the function: the calls that follow may use their content.
+        res: List[Tuple[HK, PyHash]] = []
+        for p in _no_dups(self.load_paths):
+            key = self._gctx.resolved_references.get(p)
+            if key is not None:
+                res.append((HK(f"dep_{p}"), key))
+        return res
 
     def visit_Assign(self, node: ast.Assign) -> Any:
         targets = get_assign_targets(node)
@@ -374,7 +383,7 @@ class IntroVisitor(ast.NodeVisitor):
                 # The list of all the previous interactions.
                 # This enforces the concept that the current call depends on previous calls.
                 function_inters_sig: Optional[PyHash] = dds_hash_commut(
-                    _fis_to_siglist(self.inters)
+                    _fis_to_siglist(self.inters) + self._loads_siglist()
                 )
                 # Check the call for dds calls or sub_calls.
                 fi_or_p = InspectFunction.inspect_call(
